@@ -142,6 +142,11 @@ func (w *c20World) submit(s *dsim.Sim, c *sig.RawCall, kind string) {
 			}
 		}
 		authentic = false
+	case "partner-signed":
+		// a message validly signed by the PARTNER of this stream (e.g. one this peer received
+		// from it earlier), submitted by the stream owner as its own
+		signer = c.To
+		authentic = false
 	case "wrong-context":
 		ctxOK = false
 		authentic = false
@@ -232,7 +237,7 @@ func (w *c20World) submit(s *dsim.Sim, c *sig.RawCall, kind string) {
 		if len(k) > 8 && k[:8] == "tampered" {
 			k = "tampered"
 		}
-		if k == "claims-owner" || k == "embedded-pubkey" {
+		if k == "claims-owner" || k == "embedded-pubkey" || k == "partner-signed" {
 			k = "foreign-signed"
 		}
 		s.Count("fault:" + k)
@@ -248,7 +253,7 @@ func (w *c20World) submit(s *dsim.Sim, c *sig.RawCall, kind string) {
 	}
 }
 
-var c20Kinds = []string{"honest", "honest", "honest", "honest", "honest", "honest", "honest", "honest", "honest", "honest", "honest", "honest", "honest", "honest", "foreign-signed", "claims-owner", "embedded-pubkey", "tampered-body", "tampered-sig", "tampered-sender", "wrong-context", "unsigned", "stale-epoch", "future-epoch", "same-signature-new-data"}
+var c20Kinds = []string{"honest", "honest", "honest", "honest", "honest", "honest", "honest", "honest", "honest", "honest", "honest", "honest", "honest", "honest", "foreign-signed", "claims-owner", "embedded-pubkey", "tampered-body", "tampered-sig", "tampered-sender", "wrong-context", "unsigned", "stale-epoch", "future-epoch", "same-signature-new-data", "partner-signed"}
 
 func (w *c20World) Actions(s *dsim.Sim, add func(dsim.Action)) {
 	w.rw.Net.DeliveryActions(add)
